@@ -223,7 +223,7 @@ func check(propID, tier string) int {
 			"distinct_nontrivial": len(obls),
 			"rule":                "one obligation per (rule, construct) pair; constructs are functions, call sites, lock-class edges, table rows — keyed by name, never by line; all are distinct by construction",
 			"obligations_by_rule": byRule,
-			"rules":               p.Rules,
+			"rules":               unionRules(p.Rules, byRule),
 			"build_variants":      variants,
 			"universe":            universe,
 			"samples":             samples,
@@ -255,6 +255,27 @@ func check(propID, tier string) int {
 		return 1
 	}
 	return 0
+}
+
+// unionRules: the rule families listed for the property and every family that produced an
+// obligation tagged with it on this run.
+func unionRules(listed []string, byRule map[string]int) []string {
+	seen := map[string]bool{}
+	var out []string
+	for _, r := range listed {
+		if !seen[r] {
+			seen[r] = true
+			out = append(out, r)
+		}
+	}
+	var extra []string
+	for r := range byRule {
+		if !seen[r] {
+			extra = append(extra, r)
+		}
+	}
+	sort.Strings(extra)
+	return append(out, extra...)
 }
 
 func writeReplay(propID string, o core.Obligation) string {
